@@ -391,8 +391,9 @@ class GState:
 
         if mode != SpinMode.OFF:
             self._ensure_tool_is_inactive("Spindle already active.")
+            self._validate_tool_power(speed)
 
-        self._set_tool_power(speed)
+        self._current_tool_power = speed if mode != SpinMode.OFF else 0
         self._is_tool_active = (mode != SpinMode.OFF)
         self._current_spin_mode = mode
 
@@ -412,8 +413,9 @@ class GState:
 
         if mode != PowerMode.OFF:
             self._ensure_tool_is_inactive("Power already active.")
+            self._validate_tool_power(power)
 
-        self._set_tool_power(power)
+        self._current_tool_power = power if mode != PowerMode.OFF else 0
         self._is_tool_active = (mode != PowerMode.OFF)
         self._current_power_mode = mode
 
